@@ -9,10 +9,10 @@ INVARIANTS = ["PropertyHolds", "TypeOK", "NoDuplicateWaiters", "NoLiveWaiterOnFr
 
 
 def consts(nt: int, maxops: int, maxenv: int, fast: bool, ops: str = '{"acq", "nowait", "rel", "yield"}',
-           env: str = '{"cancel", "native"}', retry: bool = False) -> dict[str, str]:
+           env: str = '{"cancel", "native"}', retry: bool = False, cleanup: bool = False) -> dict[str, str]:
     return {"NT": str(nt), "INF": "99", "Ops": ops, "MaxOps": str(maxops), "MaxEnv": str(maxenv),
             "Fast": "TRUE" if fast else "FALSE", "EnvKinds": env,
-            "Retry": "TRUE" if retry else "FALSE"}
+            "Retry": "TRUE" if retry else "FALSE", "Cleanup": "TRUE" if cleanup else "FALSE"}
 
 
 def compare_final(model: dict, real: dict) -> list[str]:
@@ -42,6 +42,11 @@ FAMILY = Family(
                  check=False, replay_kw={"fast": False}),
         ModelCfg("n3o2e1-arn", consts(3, 2, 1, False, ops='{"acq", "rel"}', env='{"native"}'), emit=True,
                  check=False, replay_kw={"fast": False}),
+        # cancelled clients run their remaining operations as clean-up behind a shield before they re-raise
+        ModelCfg("n3o3e1-cleanup", consts(3, 3, 1, False, ops='{"acq", "rel"}', env='{"cancel"}', cleanup=True),
+                 emit=True, check=False, replay_kw={"fast": False, "cleanup": True}, max_scenarios=3000),
+        ModelCfg("n3o3e2-cleanup", consts(3, 3, 2, False, cleanup=True), simulate=800, check=False,
+                 replay_kw={"fast": False, "cleanup": True}),
         # clients survive the cancellation of their scope (move_on_after pattern) and carry on
         ModelCfg("n2o3e2-retry", consts(2, 3, 2, False, ops='{"acq", "rel"}', env='{"cancel"}', retry=True),
                  emit=True, replay_kw={"fast": False, "retry": True}),
